@@ -1,7 +1,7 @@
 #!/bin/sh
 # run every seeded change against its property's quick check and record the outcome in meta.json
 HERE=$(cd "$(dirname "$0")/.." && pwd); cd "$HERE"
-for d in seeded/*/; do
+for d in seeded/${1:-*}/; do
   n=$(basename $d); id=${n%-*}
   p=$d/patch.diff
   for alt in $d/patch_rebased_*.diff; do [ -f "$alt" ] && p=$alt; done
